@@ -277,6 +277,12 @@ def _one_quic(job):
         for t in rng.sample([1, 5, 6, 7, 20, 23, max(1, plen - 1)], 2 if quick else 7):
             if 0 < t < plen:
                 faults.append(dict(kind="truncate", pkt=i, to=t))
+        # overwrites that change the header FORM of the datagram (short <-> long, every long type incl. Retry and Version Negotiation),
+        # with the following bytes left as they are or made to look like version 1 + an 8-byte DCID so that the dissector gets further
+        forms = [0xF0, 0xFF, 0xC0, 0xE3, 0xD1, 0x80, 0x40, 0x7F]
+        for v in (forms if not quick else rng.sample(forms, 3)):
+            faults.append(dict(kind="sethdr", pkt=i, val=v, v1=False))
+            faults.append(dict(kind="sethdr", pkt=i, val=v, v1=True))
     # foreign UDP traffic between other endpoints: arbitrary payloads, among them ones shaped like short- and long-header QUIC packets
     for _ in range(3 if quick else 12):
         ln = rng.choice([1, 5, 21, 22, 40, 300, 1200, 1500])
@@ -311,10 +317,14 @@ def _one_quic(job):
             data = bytearray(g.payload)
             if k == "corrupt":
                 data[f["pos"]] ^= f["val"]
+            elif k == "sethdr":
+                data[0] = f["val"]
+                if f["v1"] and len(data) > 16:
+                    data[1:6] = b"\x00\x00\x00\x01\x08"
             else:
                 data = data[:f["to"]]
             frames[f["pkt"]] = udp_frame(fv, g.d, bytes(data))
-        got, err = run(frames, kl, ts_of={f["pkt"]: stamp[id(merged[f["pkt"]])]} if k in ("corrupt", "truncate") else None)
+        got, err = run(frames, kl, ts_of={f["pkt"]: stamp[id(merged[f["pkt"]])]} if k in ("corrupt", "truncate", "sethdr") else None)
         bad = []
         if err:
             bad.append(err)
@@ -368,7 +378,9 @@ def run(chk):
             chk.distinct.add(json.dumps([res["sc"]["conns"][0]["ver"], res["sc"]["conns"][0]["suite"], res["sc"]["conns"][0]["shape"], f], sort_keys=True))
             for b in fr["bad"]:
                 kf = None
-                if b.startswith("victim direction") and f["kind"] in ("drop", "cut_before"):
+                # the finding is confined to where the model shows it (TlsSession.tla PrefixUnderLoss: violated for CBC / RC4, holds for
+                # AEAD / ChaCha20): an AEAD victim that exports a non-prefix after a loss is a NEW violation
+                if b.startswith("victim direction") and f["kind"] in ("drop", "cut_before") and not suites()[res["sc"]["conns"][0]["suite"]].aead:
                     kf = "KF_LossResync"
                 chk.violation(f"fault {f}: {b}", dict(scenario=res["sc"], fault=f, finding=b), kf_key=kf)
         chk.sample(dict(victim=[R.VNAME[res["sc"]["conns"][0]["ver"]], hex(res["sc"]["conns"][0]["suite"])], faults=res["n"] - 1,
